@@ -1230,6 +1230,10 @@ func (interp *Interpreter) cfg(root *node, sc *scope, importPath, pkgName string
 				err = n.cfgErrorf("invalid operation: cannot send to non-channel %s", n.child[0].typ.id())
 				break
 			}
+			if n.child[0].typ.TypeOf().ChanDir() == reflect.RecvDir {
+				err = n.cfgErrorf("invalid operation: cannot send to receive-only channel %s", n.child[0].typ.id())
+				break
+			}
 			fallthrough
 
 		case declStmt, exprStmt:
